@@ -17,6 +17,7 @@ import (
 	"bytes"
 	"context"
 	"encoding/json"
+	"errors"
 	"flag"
 	"fmt"
 	"hash/fnv"
@@ -48,7 +49,9 @@ type Sched struct {
 	Fail []int   `json:"fail"`
 	// Ghost: requests located below an object no request provides (a null / absent ancestor in a real plan):
 	// a non-entity nested fetch whose fetch path selects no item
-	Ghost []int         `json:"ghost"`
+	Ghost []int `json:"ghost"`
+	// Terr: the request whose data source fails with a transport error (0 = none)
+	Terr  int           `json:"terr"`
 	Arena bool          `json:"arena"`
 	Init  []int         `json:"init"`
 	Steps []ftgate.Step `json:"steps"`
@@ -91,8 +94,11 @@ func answer(f int, input any, fail bool) []byte {
 	return []byte(fmt.Sprintf(`{"data":{"id":%d,"h":"%s"}}`, f, h))
 }
 
+var errTransport = errors.New("verif: injected transport error")
+
 type gatedDS struct {
 	gate  *ftgate.Gate
+	terr  int
 	fail  map[int]bool
 	mu    *sync.Mutex
 	calls map[int]int
@@ -121,6 +127,9 @@ func (d gatedDS) Load(ctx context.Context, headers http.Header, input []byte) ([
 	d.calls[in.F]++
 	d.mu.Unlock()
 	d.gate.Arrive("ds.load", in.F, 0, saw)
+	if in.F == d.terr {
+		return nil, errTransport
+	}
 	return answer(in.F, generic, d.fail[in.F]), nil
 }
 
@@ -215,12 +224,31 @@ func buildResponse(s Sched, ds resolve.DataSource) (*resolve.GraphQLResponse, []
 }
 
 // expected evaluates the same data sources in dependency order without any loader.
-func expected(ids []int, deps [][]int, fail map[int]bool, ghost map[int]bool) string {
+func expected(ids []int, deps [][]int, fail map[int]bool, ghost map[int]bool, terr int) string {
+	bad := map[int]bool{}
+	if terr != 0 {
+		bad[terr] = true
+		for changed := true; changed; {
+			changed = false
+			for _, f := range ids {
+				for _, d := range deps[f-1] {
+					if bad[d] && !bad[f] {
+						bad[f], changed = true, true
+					}
+				}
+			}
+		}
+	}
 	val := map[int]any{}
 	var eval func(f int) any
 	eval = func(f int) any {
 		if v, ok := val[f]; ok {
 			return v
+		}
+		if bad[f] {
+			// the request failed, or (transitively) reads from a request that failed: it is not merged / not issued
+			val[f] = nil
+			return nil
 		}
 		if ghost[f] {
 			// a request whose fetch path selects no item has nowhere to merge: its field stays null
@@ -264,13 +292,13 @@ func runSchedule(s Sched, evw *bufio.Writer) Result {
 	}
 	mu := &sync.Mutex{}
 	calls := map[int]int{}
-	ds := gatedDS{gate: gate, fail: fail, mu: mu, calls: calls}
+	ds := gatedDS{gate: gate, terr: s.Terr, fail: fail, mu: mu, calls: calls}
 	resp, ids := buildResponse(s, ds)
 	ghost := map[int]bool{}
 	for _, f := range s.Ghost {
 		ghost[f] = true
 	}
-	res.ExpectData = expected(ids, s.Deps, fail, ghost)
+	res.ExpectData = expected(ids, s.Deps, fail, ghost, s.Terr)
 
 	resolve.VerifHook = func(point string, a, b uint64) {
 		if ftgate.KnownPoint(point) { // hooks of other checks share resolve.VerifHook
